@@ -726,20 +726,20 @@ package serf
 //@   ensures wf [C17]: wfCoalescer(c)
 //@   # everything sent is a member event; whoever is reported had a pending, unsuppressed event, and is reported with it
 //@   ensures only_member_events [C17]: n0 <= n1 && forall(func(j int) bool { return n0 <= j && j < n1 ==> sentIsMemberEvent(outCh, j) })
-//@   ensures reported_is_latest [C17]: forall2(func(j, i int) bool {
+//@   ensures reported_is_latest [C17,C16]: forall2(func(j, i int) bool {
 //@       ev := sentMemberEvent(outCh, j)
 //@       m := ev.Members[i]
 //@       return n0 <= j && j < n1 && 0 <= i && i < len(ev.Members) ==>
 //@         old(flushReports(c, m.Name)) && old(c.latestEvents[m.Name].Type) == ev.Type &&
 //@         old(same(*c.latestEvents[m.Name].Member, m)) })
 //@   # ... at most once per flush
-//@   ensures at_most_once [C17]: forall2(func(j, i int) bool { return forall2(func(j2, i2 int) bool {
+//@   ensures at_most_once [C17,C16]: forall2(func(j, i int) bool { return forall2(func(j2, i2 int) bool {
 //@       ev := sentMemberEvent(outCh, j)
 //@       ev2 := sentMemberEvent(outCh, j2)
 //@       return n0 <= j && j < n1 && 0 <= i && i < len(ev.Members) && n0 <= j2 && j2 < n1 && 0 <= i2 && i2 < len(ev2.Members) && (j != j2 || i != i2) ==>
 //@         ev.Members[i].Name != ev2.Members[i2].Name }) })
 //@   # ... and every member with a pending unsuppressed event is reported
-//@   ensures all_reported [C17]: forall(func(k string) bool { return old(flushReports(c, k)) ==>
+//@   ensures all_reported [C17,C16]: forall(func(k string) bool { return old(flushReports(c, k)) ==>
 //@       exists2(func(j, i int) bool { ev := sentMemberEvent(outCh, j)
 //@         return n0 <= j && j < n1 && 0 <= i && i < len(ev.Members) && ev.Members[i].Name == k }) })
 //@   # the kind last reported is remembered, and the next window starts empty
@@ -1572,5 +1572,60 @@ package serf
 //@   ensures oversize_rejected_without_effect [C32]: logAt[int]("tagsenc", t0) > memberlist.MetaMaxSize ==>
 //@       err != nil && same(s.config.Tags, old(s.config.Tags)) && callNOf("updatenode") == u0
 //@ end
+
+// ---------------------------------------------------------------- events pass every pipeline stage in order (C16)
+// A forwarding stage receives events and passes them on. "In order" is stated with two ghost logs the verifier keeps
+// for these functions: the values the goroutine has received, in the order received (recvTotal / recvTotalAt), and,
+// for every send, how many values had been received when it happened (sentStamp). A stage forwards in order when
+// every value it sent since it started is the value it had received last at that moment, and the stamps of
+// successive sends on one channel strictly increase: the sent sequence is then a subsequence of the received one
+// (each received event forwarded at most once, none invented, none reordered).
+//@ pure func forwardedInOrder(out chan<- Event, in <-chan Event, s0 int, t0 int) bool {
+//@   return forall(func(k int) bool { return s0 <= k && k < sentN(out) ==>
+//@     t0 < sentStamp(out, k) && sentStamp(out, k) <= recvTotal(in) && same(sentAt(out, k), recvTotalAt(in, sentStamp(out, k)-1)) &&
+//@     (k > s0 ==> sentStamp(out, k-1) < sentStamp(out, k)) })
+//@ }
+
+// the snapshotter's tee: whatever it hands to the application channel and to its own recording goroutine is the input
+// stream, in order, possibly with gaps (both sends are non-blocking)
+//@ func (s *Snapshotter) teeStream()
+//@   requires wf: s != nil && s.inCh != nil && s.streamCh != nil && !closed(s.streamCh) && (s.outCh == nil || !closed(s.outCh)) && distinctRefs(s.streamCh, s.outCh)
+//@   # Serf never closes the channel it publishes events on
+//@   requires input_never_closed: neverClosed(s.inCh)
+//@   oldlet so0 := sentN(s.outCh)
+//@   oldlet ss0 := sentN(s.streamCh)
+//@   oldlet t0 := recvTotal(s.inCh)
+//@   ensures application_sees_input_order [C16]: s.outCh != nil ==> forwardedInOrder(s.outCh, s.inCh, so0, t0)
+//@   ensures recorder_sees_input_order [C16]: forwardedInOrder(s.streamCh, s.inCh, ss0, t0)
+//@   loop 1 invariant application_in_order [C16]: s.outCh != nil ==> forwardedInOrder(s.outCh, s.inCh, so0, t0)
+//@   loop 1 invariant recorder_in_order [C16]: forwardedInOrder(s.streamCh, s.inCh, ss0, t0)
+//@   loop 1 invariant counters [C16]: t0 <= recvTotal(s.inCh) && so0 <= sentN(s.outCh) && ss0 <= sentN(s.streamCh)
+//@   loop 1 invariant open [C16]: !closed(s.streamCh) && (s.outCh == nil || !closed(s.outCh))
+//@   loop 2 invariant application_in_order [C16]: s.outCh != nil ==> forwardedInOrder(s.outCh, s.inCh, so0, t0)
+//@   loop 2 invariant recorder_in_order [C16]: forwardedInOrder(s.streamCh, s.inCh, ss0, t0)
+//@   loop 2 invariant counters [C16]: t0 <= recvTotal(s.inCh) && so0 <= sentN(s.outCh) && ss0 <= sentN(s.streamCh)
+//@   loop 2 invariant open [C16]: !closed(s.streamCh) && (s.outCh == nil || !closed(s.outCh))
+//@ end
+
+//@ import "strings"
+
+// the internal-query filter: everything that is not an internal query goes on to the application, in order, each
+// event once; internal queries are answered here and never forwarded
+//@ pure func isInternalQuery(e Event) bool { q, ok := e.(*Query); return ok && q != nil && strings.HasPrefix(q.Name, InternalQueryPrefix) }
+//@ func (s *serfQueries) stream()
+//@   requires wf: s != nil && s.inCh != nil && (s.outCh == nil || !closed(s.outCh))
+//@   requires input_never_closed: neverClosed(s.inCh)
+//@   requires queries_wellformed: forall(func(j int) bool { return j >= recvN(s.inCh) ==> wfEventValue(recvAt(s.inCh, j)) })
+//@   oldlet so0 := sentN(s.outCh)
+//@   oldlet t0 := recvTotal(s.inCh)
+//@   ensures application_sees_input_order [C16]: s.outCh != nil ==> forwardedInOrder(s.outCh, s.inCh, so0, t0)
+//@   ensures internal_queries_not_forwarded [C16]: s.outCh != nil ==> forall(func(k int) bool { return so0 <= k && k < sentN(s.outCh) ==> !isInternalQuery(sentAt(s.outCh, k)) })
+//@   loop 1 invariant application_in_order [C16]: s.outCh != nil ==> forwardedInOrder(s.outCh, s.inCh, so0, t0)
+//@   loop 1 invariant internal_queries_not_forwarded [C16]: s.outCh != nil ==> forall(func(k int) bool { return so0 <= k && k < sentN(s.outCh) ==> !isInternalQuery(sentAt(s.outCh, k)) })
+//@   loop 1 invariant counters [C16]: t0 <= recvTotal(s.inCh) && so0 <= sentN(s.outCh) && (s.outCh == nil || !closed(s.outCh))
+//@   loop 1 invariant queries_wellformed [C16]: forall(func(j int) bool { return j >= recvN(s.inCh) ==> wfEventValue(recvAt(s.inCh, j)) })
+//@ end
+// events that carry a query carry a non-nil one
+//@ pure func wfEventValue(e Event) bool { q, ok := e.(*Query); return ok ==> q != nil }
 
 // END-OF-CONTRACTS
